@@ -252,7 +252,32 @@ def r2_templates(ctx, chk, rule="C17.2"):
             template_rule(ctx, chk, rule, f2, name_term, MANUAL_TABLE, src_of, tail2, "inputs/manual_robot_")
 
 
+def r3_matrix_max(ctx, chk, rule="C17.4"):
+    """The manual entry point names the file after the maximum of the whole reward / arrow table."""
+    q = "stochastic_game_from_roborta_board.py::get_max_from_matrix"
+    if not ctx.prog.has_func(q):
+        return
+    f = ctx.func(q)
+    sx = SymX(ctx, f).run()
+    r = sx.ret
+    m = ("v", f.params[0])
+    ok = False
+    if r[0] == "call" and r[1] == "max" and len(r[2]) == 1 and r[2][0][0] == "compr":
+        L = sx.loops[r[2][0][1]]
+        if L.source == m and not L.filters and L.whole and L.elt == ("call", "max", (("elem", L.id),), ()):
+            ok = True
+    if ok:
+        chk.ok(rule, f.where(), "get_max_from_matrix = max over all rows of max(row)")
+    elif r == ("call", "max", (("call", "max", (m,), ()),), ()):
+        chk.violation(rule, f.where(), "get_max_from_matrix is max(max(matrix)): the maximum of the lexicographically greatest ROW, not of the whole table - "
+                      "rewards [[3,0],[1,5]] are named r3, and a down-only tile outside that row drops the force_down flag", expected="max(max(row) for row in matrix)", found=show(r),
+                      construct="get_max_from_matrix lexicographic")
+    else:
+        chk.undecided(rule, f.where(), "get_max_from_matrix returns `%s`" % show(r)[:100])
+
+
 def run(ctx, chk):
+    r3_matrix_max(ctx, chk)
     r1_conversion(ctx, chk)
     r2_templates(ctx, chk)
     C08.argument_swap_rule(ctx, chk, "C17.3")
